@@ -63,7 +63,7 @@ pub fn program_from_bytes(data: &[u8], allow_fill: bool) -> Program {
             continue;
         }
         let op = match if extended { k % 27 } else { k % 22 } {
-            22 => Op::Volley { n: 1 + a % 100 },
+            22 => Op::Volley { n: 1 + (a as u16 % 130) * 2 },
             23 => Op::PopGuard { collect: a % 2 == 0, early: false, unwind: true },
             24 => Op::PushChildSpans { span: sel, set: b as u16 * 257, last: true },
             25 => Op::Churn { k: 1 + a % 3 },
